@@ -20,6 +20,9 @@ def run(ctx) -> None:
     rule_V8(ctx)            # a copy keeps the selected member even when it is an untouched default message
     ctx.rules_run.append("V5")
     rule_V5(ctx)            # copies must not share the selection table with the original
+    from . import jsonrules
+    ctx.rules_run.append("J4")
+    jsonrules.rule_J4(ctx)  # a member named in a dict / JSON load is selected whatever its value ({} / 0 / ""): only null is skipped
     for name, fn in (("O1", presence.rule_O1), ("O2", presence.rule_O2), ("O3", presence.rule_O3), ("O4", presence.rule_O4), ("O5", presence.rule_O5), ("D1", presence.rule_D1)):
         ctx.rules_run.append(name)
         fn(ctx)
